@@ -16,6 +16,8 @@ pub struct Op {
     pub(crate) lhs: Box<Expr>,
     pub(crate) rhs: Box<Expr>,
     pub(crate) opcode: ast::Opcode,
+    #[cfg(feature = "verif-hooks")]
+    pub(crate) verif: crate::compiler::verif::Site,
 }
 
 fn is_number(value: &Value) -> bool {
@@ -118,12 +120,21 @@ impl Op {
             lhs: Box::new(lhs),
             rhs: Box::new(rhs),
             opcode,
+            #[cfg(feature = "verif-hooks")]
+            verif: crate::compiler::verif::Site::new(Span::new(lhs_span.start(), rhs_span.end())),
         })
     }
 }
 
 impl Expression for Op {
     fn resolve(&self, ctx: &mut Context) -> Resolved {
+        #[cfg(feature = "verif-hooks")]
+        if crate::compiler::verif::wrap_next() {
+            let result = self.resolve(ctx);
+            self.verif.observe("op", &self.opcode.to_string(), &result);
+            return result;
+        }
+
         use crate::value::Value::{Boolean, Null};
         use ast::Opcode::{Add, And, Div, Eq, Err, Ge, Gt, Le, Lt, Merge, Mul, Ne, Or, Sub};
 
@@ -530,6 +541,8 @@ mod tests {
             lhs: Box::new(lhs.into()),
             rhs: Box::new(rhs.into()),
             opcode,
+            #[cfg(feature = "verif-hooks")]
+            verif: crate::compiler::verif::Site::default(),
         }
     }
 
@@ -678,6 +691,8 @@ mod tests {
                 lhs: Box::new(Literal::from(true).into()),
                 rhs: Box::new(Literal::from(NotNan::new(1.0).unwrap()).into()),
                 opcode: Div,
+                #[cfg(feature = "verif-hooks")]
+                verif: crate::compiler::verif::Site::default(),
             },
             want: TypeDef::float().fallible(),
         }
@@ -693,6 +708,8 @@ mod tests {
                     lhs: Box::new(Literal::from(1).into()),
                     rhs: Box::new(Variable::new(Span::default(), Ident::new("foo"), &state.local).unwrap().into()),
                     opcode: Div,
+                    #[cfg(feature = "verif-hooks")]
+                    verif: crate::compiler::verif::Site::default(),
                 }
             },
             want: TypeDef::float().fallible(),
